@@ -198,6 +198,20 @@ def check_case(case):
         ls, as_ = extract_percentile_contour(F * case["scale"], grid, pct=p, level=lvl)
         if not (ls == level * case["scale"] and as_ == area):
             out.bad(f"scaling f by {case['scale']}: level {level!r} -> {ls!r}, area {area!r} -> {as_!r}")
+        if st_ > 1:
+            # every level of the SAME 3-D array object, one after the other: each answer is that slice's answer
+            for k in range(st_):
+                lk, ak = extract_percentile_contour(F, grid, pct=p, level=k)
+                l2k, a2k = extract_percentile_contour(F[k].copy(), (X, Y, np.zeros_like(X)), pct=p)
+                if (lk, ak) != (l2k, a2k):
+                    out.bad(f"3-D input queried at level {k} after other levels gives {(lk, ak)}, the 2-D call on that slice {(l2k, a2k)}")
+        # the same array object scaled in place between two calls
+        G = np.array(F, copy=True)
+        l_a, a_a = extract_percentile_contour(G, grid, pct=p, level=lvl)
+        G *= case["scale"]
+        l_b, a_b = extract_percentile_contour(G, grid, pct=p, level=lvl)
+        if not (l_b == l_a * case["scale"] and a_b == a_a):
+            out.bad(f"array scaled in place by {case['scale']} between two calls: level {l_a!r} -> {l_b!r}, area {a_a!r} -> {a_b!r}")
     if len(res) == 2:
         (pa, (la, aa)), (pb, (lb, ab)) = sorted(res.items())
         if pa < pb and (aa > ab or la < lb):
